@@ -6,17 +6,32 @@ abstraction nan / num / inf), Trace_KinematicsInel.tla (judge of recorded execut
 
 1. TLC, exhaustive over rational speeds x integer lengths: the clock at the detector is
    L1/v(Ei) + L2/v(Ef) and later than t0 of either leg; both kernels return exactly Ei - Ef there
-   (EnergyConservation); the class is NaN iff t <= t0 (Boundary) and never Inf (NoInf).
-   Negative control: `<` instead of `<=` at the boundary (yields Inf at t = t0).
-2. spec -> code (M1): every flight TLC enumerates (with its exact Ei - Ef) is replayed into
-   energy_transfer_direct_from_tof / energy_transfer_indirect_from_tof and into
-   convert(..., 'energy_transfer'), with the supplied energy in ueV / meV / eV / J, every length and
-   time unit, float32 / float64 operands, scalar / dense / per-pixel layouts.  Energies and lengths
-   are spec rationals times scale factors with short mantissas, so the floats handed over are the
-   spec values exactly and the expected result is the spec's rational times the energy scale.
+   (EnergyConservation); the class is NaN iff t <= t0 (Boundary) and never Inf (NoInf); the same pair
+   of energies is then flown to a second detector bank (other L1, L2) and converted with the same
+   supplied energy, with the same invariants (second use).
+   Negative controls: `<` instead of `<=` at the boundary (yields Inf at t = t0); a t0 remembered per
+   supplied energy and reused for the second bank (stale_t0).
+2. spec -> code (M1): every flight TLC enumerates (with its exact Ei - Ef and its exact arrival time)
+   is replayed into energy_transfer_direct_from_tof / energy_transfer_indirect_from_tof and into
+   convert(..., 'energy_transfer'), with the supplied energy in ueV / meV / eV / keV / J, every length
+   and time unit, float32 / float64 operands (all eight combinations), and the layouts
+     scalar | dense (1-d tof, scalar lengths) | pixels (2-d tof, per-pixel lengths, one supplied energy or one
+     per pixel; also with the dims
+     listed in the other order, as a transposed view and as a window of a larger table) |
+     bcast (1-d or 0-d tof shared by pixels with per-pixel lengths: flights of the specification that
+     arrive at the same time at different pixels, so that the result is the 2-d broadcast) |
+     events (tof as event data binned over the pixels, also with events outside the bins) |
+     convert (dense and event data).
+   Energies and lengths are spec rationals times scale factors with short mantissas, so the floats
+   handed over are the spec values exactly and the expected result is the spec's rational times the
+   energy scale.
 3. code -> spec (M2): every real call is one NDJSON event judged by TLC; boundary scans step through
-   the 33 floats around the exact t0 plus far points; TLC applies the specification's class rule to
-   the side of every scanned time.
+   the 33 floats around the exact t0 plus far points, listed in ascending, descending or shuffled
+   order; TLC applies the specification's class rule to the side of every scanned time.
+4. second use: every second call takes the supplied energy (and the lengths) from variable objects
+   that live across calls and are overwritten in place; the same energy is supplied again with other
+   lengths / length units (one instrument, several detector banks); at the end of the run a sample of
+   the flight blocks and scans is replayed and judged once more in another order.
 
 Numeric parts decided by the harness, not by TLC: the arrival time (irrational, 60-digit mpmath, rounded
 once to the operand dtype), the closeness bound and the side of a scanned time relative to t0.
@@ -33,7 +48,7 @@ are scanned in addition so that both sides outside the band are always exercised
 
 from __future__ import annotations
 
-import math
+import os
 from fractions import Fraction
 
 import mpmath
@@ -49,12 +64,16 @@ TAU = {'float64': 1e-11, 'float32': 1e-5}
 EPS = {'float64': 2.0 ** -52, 'float32': 2.0 ** -23}
 BAND_ULPS = 8
 UNIT_ALLOWANCE = 1e-11
-ENERGY_UNITS = ('ueV', 'meV', 'eV', 'J')
+ENERGY_UNITS = ('ueV', 'meV', 'eV', 'keV', 'J')
+LAYOUTS = ('scalar', 'dense', 'pixels', 'bcast', 'events', 'convert')
 RULE = ('flight (vi, vf, L1, L2, geometry) enumerated by TLC x energy unit x length units x tof unit x '
-        'operand dtypes x layout {scalar, dense, per-pixel, convert()}; boundary scans: 33 adjacent floats '
-        'around the exact t0 + far points + exact-boundary family (E = m_n 2^(2j-1) J, dyadic L, seconds). '
-        'non-trivial = call returned and (flight: Ei != Ef or elastic line; scan: both NaN and numbers occur), '
-        'distinct by all of the above')
+        'operand dtypes (8 combinations) x layout {scalar, dense, per-pixel (plain / dims in the other order / '
+        'transposed view / window), broadcast of a shared time axis over per-pixel lengths, event data, '
+        'convert() on dense and event data}; boundary scans: 33 adjacent floats around the exact t0 + far points '
+        '(ascending / descending / shuffled) + exact-boundary family (E = m_n 2^(2j-1) J, dyadic L, seconds); '
+        'operand objects reused across calls, the same energy supplied again with other lengths; a sample '
+        'replayed at the end in another order. non-trivial = call returned and (flight: Ei != Ef or elastic '
+        'line; scan: both NaN and numbers occur), distinct by all of the above')
 
 
 short = lc.short
@@ -78,48 +97,147 @@ const_class = lc.const_class
 
 
 def cls_of(arr) -> list[str]:
-    return [lc.classify(float(v)) for v in np.asarray(arr, dtype='float64').ravel()]
+    try:
+        return [lc.classify(float(v)) for v in np.asarray(arr, dtype='float64').ravel()]
+    except Exception:  # noqa: BLE001   (non-numeric result: no class is allowed for it)
+        return ['malformed']
 
 
 def worst_cls(classes):
-    return 'inf' if 'inf' in classes else ('nan' if 'nan' in classes else 'num')
+    for c in ('malformed', 'inf', 'nan'):
+        if c in classes:
+            return c
+    return 'num'
 
 
 # ------------------------------------------------------------------------------------ flights
 class Flights:
     def __init__(self, printed):
         self.tab = {}
+        self.arrival = {}
         for p in printed:
             if isinstance(p, list) and p and p[0] == 'FLIGHT':
-                _, vi, vf, L1, L2, mode, val = p
-                self.tab[(Fraction(*vi), Fraction(*vf), L1, L2, mode)] = Fraction(*val)
+                _, vi, vf, L1, L2, mode, val, clock = p
+                key = (Fraction(*vi), Fraction(*vf), L1, L2, mode)
+                self.tab[key] = Fraction(*val)
+                self.arrival[key] = Fraction(*clock)
         if not self.tab:
             raise MachineryError('specification emitted no flights')
         self.speeds = sorted({k[0] for k in self.tab})
         self.lengths = sorted({k[2] for k in self.tab})
+        for (vi, vf, L1, L2, _m), t in self.arrival.items():
+            if t != Fraction(L1) / vi + Fraction(L2) / vf:
+                raise MachineryError('arrival time emitted by the specification is not L1/vi + L2/vf')
+        # flights of the specification that reach different pixels at the same time (same supplied
+        # energy): (mode, v_fix) -> {arrival time -> {(L1, L2): v_var}}
+        self.same_time: dict = {}
+        for (vi, vf, L1, L2, m), t in self.arrival.items():
+            v_fix, v_var = (vi, vf) if m == 'direct' else (vf, vi)
+            self.same_time.setdefault((m, v_fix), {}).setdefault(t, {})[(L1, L2)] = v_var
+
+    def key(self, mode, v_fix, v_var, L1, L2):
+        return (v_fix, v_var, L1, L2, mode) if mode == 'direct' else (v_var, v_fix, L1, L2, mode)
+
+    def shared_axis(self, rng, mode, v_fix, npix, nx):
+        """Pixels (L1, L2) and arrival times such that every (pixel, time) is a flight of the specification."""
+        from itertools import combinations
+
+        times = self.same_time[(mode, v_fix)]
+        for k in range(min(nx, len(times)), 0, -1):
+            cands = []
+            for ts in combinations(sorted(times), k):
+                common = set.intersection(*(set(times[t]) for t in ts))
+                if len(common) >= npix:
+                    cands.append((ts, sorted(common)))
+                if len(cands) > 200:
+                    break
+            if cands:
+                ts, common = rng.choice(cands)
+                ts = list(ts)
+                rng.shuffle(ts)
+                pix = rng.sample(common, npix)
+                return pix, ts, [[times[t][p] for t in ts] for p in pix]
+        return None
 
 
-def flight_block(ctx, fl, mode, layout, dts, units, events, details, tid):
-    """One real call on a block of TLC flights sharing the supplied energy."""
+class Last:
+    """What the previous call of the same kind was given (second use: same energy, other lengths)."""
+
+    def __init__(self):
+        self.energy: dict = {}
+        self.pool = lc.OperandPool()
+
+
+def draw_flight(ctx, fl, mode, layout, dts, units, last):
+    """Parameters of one real call on a block of TLC flights sharing the supplied energy."""
     rng = ctx.rng
     dt_t, dt_E, dt_L = dts
-    prec = prec_of(*dts)
     eunit, u1, u2, tunit = units
-    nx = 1 if layout == 'scalar' else min(4, len(fl.speeds))
-    npix = 3 if layout in ('pixels', 'convert') else 1
-    v_fix = rng.choice(fl.speeds)
-    v_var = rng.sample(fl.speeds, nx)
-    pix = [(rng.choice(fl.lengths), rng.choice(fl.lengths)) for _ in range(npix)]
-    if layout == 'convert':     # one beamline: L1 common to all pixels
-        pix = [(pix[0][0], p[1]) for p in pix]
-    # energy scale: natural energy 1 <-> kappa [eunit]; 8-bit mantissa keeps v^2/2 * kappa exact in float32
-    kappa_meV = 10 ** rng.uniform(-1.4, 3.0)   # Ei, Ef stay inside 1e-3..1e4 meV
-    kappa = short(kappa_meV * float(lc.si('meV') / lc.si(eunit)), 8)
+    variant = ''
+    if layout == 'pixels':
+        variant = rng.choice(['', 'T', 'view', 'slice'])
+    elif layout == 'bcast':
+        variant = rng.choice(['', '', 'scalar-tof'])
+    elif layout in ('events', 'convert'):
+        variant = rng.choice(['', 'gaps']) if layout == 'events' else rng.choice(['', 'events'])
+    nx = 1 if layout == 'scalar' or variant == 'scalar-tof' else (3 if layout == 'bcast' else min(4, len(fl.speeds)))
+    npix = {'scalar': 1, 'dense': 1, 'pixels': 3, 'bcast': 2, 'events': 3, 'convert': 3}[layout]
+    if variant in ('T', 'view', 'slice'):
+        npix, nx = 2, 3                  # npix != nx: a transposed table cannot pass for the table
+    reuse = last.energy.get((eunit, dt_E)) if rng.random() < 0.5 else None
+    if reuse:
+        # the energy supplied by the previous call in this unit / dtype, now with other lengths / units
+        kappa, v_fix = reuse
+    else:
+        v_fix = rng.choice(fl.speeds)
+        # energy scale: natural energy 1 <-> kappa [eunit]; 8-bit mantissa keeps v^2/2 * kappa exact in float32
+        kappa_meV = 10 ** rng.uniform(-1.4, 3.0)   # Ei, Ef stay inside 1e-3..1e4 meV
+        kappa = short(kappa_meV * float(lc.si('meV') / lc.si(eunit)), 8)
+    last.energy[(eunit, dt_E)] = (kappa, v_fix)
+    if layout == 'bcast':
+        got = fl.shared_axis(rng, mode, v_fix, npix, nx)
+        if got is None:
+            return None
+        pix, _ts, v_var = got
+        nx = len(v_var[0])
+        if nx == 1:
+            variant = 'scalar-tof' if rng.random() < 0.5 else '1-tof'      # a 0-d / one-element time axis
+        u2 = u1                          # one physical scale for both legs keeps the coincidence exact
+    else:
+        row = rng.sample(fl.speeds, nx)
+        pix = [(rng.choice(fl.lengths), rng.choice(fl.lengths)) for _ in range(npix)]
+        if layout == 'convert':          # one beamline: L1 common to all pixels
+            pix = [(pix[0][0], p[1]) for p in pix]
+            u2 = u1
+        if layout in ('pixels', 'events', 'convert'):
+            v_var = [[row[(x + p) % nx] for x in range(nx)] for p in range(npix)]   # every pixel its own axis
+        else:
+            v_var = [list(row) for _ in range(npix)]
     s1 = short(10 ** rng.uniform(-1, 1.9) / float(lc.si(u1)), 8)
-    s2 = short(10 ** rng.uniform(-1, 1.9) / float(lc.si(u2)), 8)
-    if layout == 'convert':
-        u2 = u1
-        s2 = short(10 ** rng.uniform(-1, 1.9) / float(lc.si(u2)), 8)
+    s2 = s1 if layout == 'bcast' else short(10 ** rng.uniform(-1, 1.9) / float(lc.si(u2)), 8)
+    # the supplied energy is one number for the instrument, or one per pixel (analysers of an indirect-geometry
+    # spectrometer, repetition-rate multiplication on a direct-geometry one)
+    v_fix_p = [v_fix] * npix
+    if layout in ('pixels', 'events') and rng.random() < 0.4:
+        v_fix_p = [rng.choice(fl.speeds) for _ in range(npix)]
+        v_fix_p[0] = v_fix
+    return {'mode': mode, 'layout': layout, 'variant': variant, 'dts': tuple(dts), 'units': (eunit, u1, u2, tunit),
+            'v_fix': v_fix, 'v_fix_p': v_fix_p, 'energy_per_pixel': len(set(v_fix_p)) > 1 or (
+                layout in ('pixels', 'events') and rng.random() < 0.1),
+            'v_var': v_var, 'pix': pix, 'kappa': kappa, 's1': s1, 's2': s2,
+            'pooled': rng.random() < 0.5, 'same_energy_as_previous_call': bool(reuse),
+            'gaps': [rng.randrange(3) for _ in range(npix + 1)] if variant in ('gaps', 'events') else None}
+
+
+def run_flight(ctx, fl, prm, last, events, details, tid, again=False):
+    """One real call on a block of TLC flights; one event.  Returns True if the call returned."""
+    mode, layout, variant = prm['mode'], prm['layout'], prm['variant']
+    dt_t, dt_E, dt_L = dts = prm['dts']
+    prec = prec_of(*dts)
+    eunit, u1, u2, tunit = prm['units']
+    v_fix, v_var, pix, kappa, s1, s2 = (prm[k] for k in ('v_fix', 'v_var', 'pix', 'kappa', 's1', 's2'))
+    v_fix_p, e_per_pixel = prm['v_fix_p'], prm['energy_per_pixel']
+    npix, nx = len(pix), len(v_var[0])
 
     def energy(v):
         x = Fraction(v) ** 2 / 2 * Fraction(kappa)
@@ -128,9 +246,8 @@ def flight_block(ctx, fl, mode, layout, dts, units, events, details, tid):
             raise MachineryError(f'energy {x} not exactly representable as {dt_E}')
         return x
 
-    E_fix = energy(v_fix)
-    E_var = [energy(v) for v in v_var]
-    E_fix_SI = mpf(E_fix * lc.si(eunit))
+    E_fix_p = [energy(v) for v in v_fix_p]
+    E_var = [[energy(v) for v in row] for row in v_var]
     L1v = [Fraction(p[0]) * Fraction(s1) for p in pix]
     L2v = [Fraction(p[1]) * Fraction(s2) for p in pix]
     for L in L1v + L2v:
@@ -141,8 +258,9 @@ def flight_block(ctx, fl, mode, layout, dts, units, events, details, tid):
     ratio = np.empty((npix, nx))   # t / (t - t0)
     for p in range(npix):
         L1_SI, L2_SI = mpf(L1v[p] * lc.si(u1)), mpf(L2v[p] * lc.si(u2))
+        E_fix_SI = mpf(E_fix_p[p] * lc.si(eunit))
         for x in range(nx):
-            Ev_SI = mpf(E_var[x] * lc.si(eunit))
+            Ev_SI = mpf(E_var[p][x] * lc.si(eunit))
             if mode == 'direct':
                 t0, tv = L1_SI / speed(E_fix_SI), L2_SI / speed(Ev_SI)
             else:
@@ -150,64 +268,124 @@ def flight_block(ctx, fl, mode, layout, dts, units, events, details, tid):
             tof[p, x] = float((t0 + tv) / mpf(lc.si(tunit)))
             ratio[p, x] = float((t0 + tv) / tv)
     tof = lc.cast_values(tof, dt_t)
+    if layout == 'bcast' and not all(np.array_equal(tof[0], tof[p]) for p in range(npix)):
+        # the flights coincide exactly in the specification; as floats the rows may differ in the last place
+        # (irrational factor rounded per pixel): hand over row 0, the bound below covers one rounding of t
+        if float(np.max(np.abs(tof - tof[0]) / tof[0])) > 4 * EPS[dt_t]:
+            raise MachineryError('coincident flights of the specification do not coincide in the harness')
     # expected = spec rational * kappa (exactly the difference of the floats handed over / implied)
     want = np.empty((npix, nx), dtype=object)
     for p in range(npix):
         for x in range(nx):
-            key = (v_fix, v_var[x], pix[p][0], pix[p][1], mode) if mode == 'direct' else (
-                v_var[x], v_fix, pix[p][0], pix[p][1], mode)
-            w = fl.tab[key] * Fraction(kappa)
-            chk = (E_fix - E_var[x]) if mode == 'direct' else (E_var[x] - E_fix)
+            w = fl.tab[fl.key(mode, v_fix_p[p], v_var[p][x], pix[p][0], pix[p][1])] * Fraction(kappa)
+            chk = (E_fix_p[p] - E_var[p][x]) if mode == 'direct' else (E_var[p][x] - E_fix_p[p])
             if w != chk:
                 raise MachineryError('refinement mapping inconsistent: spec dE * kappa != Ei - Ef')
             want[p, x] = w
-    ev = {'ev': 'flight', 'tid': tid, 'mode': mode, 'via': 'convert' if layout == 'convert' else 'kernel',
-          'status': 'ok', 'unit_in': eunit, 'unit_out': '', 'cls': 'num', 'close': True}
-    det = {'layout': layout, 'dtypes(tof,E,L)': dts, 'units(E,L1,L2,tof)': [eunit, u1, u2, tunit],
-           'v_fix': str(v_fix), 'v_var': [str(v) for v in v_var], 'pixels(L1,L2)': pix,
-           'kappa': kappa, 's1': s1, 's2': s2, 'const_class': const_class(dt_E, eunit, tunit, (u1, u2))}
+    via = 'convert' if layout == 'convert' else 'kernel'
+    ev = {'ev': 'flight', 'tid': tid, 'mode': mode, 'via': via, 'layout': layout + ('/' + variant if variant else ''),
+          'status': 'ok', 'unit_in': eunit, 'unit_out': '', 'cls': 'num', 'close': True, 'shape_ok': True,
+          'again': bool(again), 'energy_per_pixel': bool(e_per_pixel)}
+    det = {'layout': ev['layout'], 'dtypes(tof,E,L)': dts, 'units(E,L1,L2,tof)': [eunit, u1, u2, tunit],
+           'v_fix': str(v_fix) if not e_per_pixel else str([str(v) for v in v_fix_p]), 'v_var': [[str(v) for v in row] for row in v_var], 'pixels(L1,L2)': pix,
+           'kappa': kappa, 's1': s1, 's2': s2, 'const_class': const_class(dt_E, eunit, tunit, (u1, u2)),
+           'operand_objects_reused': prm['pooled'], 'same_energy_as_previous_call': prm['same_energy_as_previous_call']}
     ename = 'incident_energy' if mode == 'direct' else 'final_energy'
-    E_var_sc = lc.var(float(E_fix), [], eunit, dt_E)
+
+    def operand(name, values, dims, unit, dt):
+        if prm['pooled']:
+            return last.pool.get(name, values, dims, unit, dt)
+        return lc.var(values, dims, unit, dt)
+
+    E_sc = operand('E', [float(e) for e in E_fix_p], ['spectrum'], eunit, dt_E) if e_per_pixel else operand(
+        'E', float(E_fix_p[0]), [], eunit, dt_E)
     try:
         if layout == 'convert':
             import scippneutron as scn
 
             z = sc.vector([0.0, 0.0, 1.0])
             xdir = sc.vector([1.0, 0.0, 0.0])
-            da = sc.DataArray(
-                sc.ones(dims=['spectrum', 'tof'], shape=[npix, nx]),
-                coords={'tof': lc.var(tof, ['spectrum', 'tof'], tunit, dt_t),
-                        'source_position': (-float(L1v[0])) * z * sc.scalar(1.0, unit=lc.scu(u1)),
-                        'sample_position': 0.0 * z * sc.scalar(1.0, unit=lc.scu(u1)),
-                        'position': sc.concat([float(L) * xdir for L in L2v], 'spectrum')
-                        * sc.scalar(1.0, unit=lc.scu(u2)),
-                        ename: E_var_sc})
-            out = scn.convert(da, origin='tof', target='energy_transfer', scatter=True)
-            res = out.coords['energy_transfer']
+            coords = {'source_position': (-float(L1v[0])) * z * sc.scalar(1.0, unit=lc.scu(u1)),
+                      'sample_position': 0.0 * z * sc.scalar(1.0, unit=lc.scu(u1)),
+                      'position': sc.concat([float(L) * xdir for L in L2v], 'spectrum')
+                      * sc.scalar(1.0, unit=lc.scu(u2)),
+                      ename: E_sc}
+            if variant == 'events':
+                tb = lc.binned_var(tof, tunit, dt_t, prm['gaps'])
+                parts = tb.bins.constituents
+                buf = sc.DataArray(sc.ones(dims=['event'], shape=[parts['data'].sizes['event']]),
+                                   coords={'tof': parts['data']})
+                da = sc.DataArray(sc.bins(begin=parts['begin'], end=parts['end'], dim='event', data=buf),
+                                  coords=coords)
+                out = scn.convert(da, origin='tof', target='energy_transfer', scatter=True)
+                res = out.bins.coords['energy_transfer']
+            else:
+                da = sc.DataArray(sc.ones(dims=['spectrum', 'tof'], shape=[npix, nx]),
+                                  coords=dict(coords, tof=lc.var(tof, ['spectrum', 'tof'], tunit, dt_t)))
+                out = scn.convert(da, origin='tof', target='energy_transfer', scatter=True)
+                res = out.coords['energy_transfer']
+            dims_in = None        # convert() may rename the time dim: only the shape is looked at
         else:
             if layout == 'scalar':
-                kw = {'tof': lc.var(tof[0, 0], [], tunit, dt_t), 'L1': lc.var(float(L1v[0]), [], u1, dt_L),
-                      'L2': lc.var(float(L2v[0]), [], u2, dt_L)}
+                kw = {'tof': lc.var(tof[0, 0], [], tunit, dt_t), 'L1': operand('L1', float(L1v[0]), [], u1, dt_L),
+                      'L2': operand('L2', float(L2v[0]), [], u2, dt_L)}
             elif layout == 'dense':
-                kw = {'tof': lc.var(tof[0], ['tof'], tunit, dt_t), 'L1': lc.var(float(L1v[0]), [], u1, dt_L),
-                      'L2': lc.var(float(L2v[0]), [], u2, dt_L)}
+                kw = {'tof': lc.var(tof[0], ['tof'], tunit, dt_t), 'L1': operand('L1', float(L1v[0]), [], u1, dt_L),
+                      'L2': operand('L2', float(L2v[0]), [], u2, dt_L)}
             else:
-                kw = {'tof': lc.var(tof, ['spectrum', 'tof'], tunit, dt_t),
-                      'L1': lc.var([float(v) for v in L1v], ['spectrum'], u1, dt_L),
-                      'L2': lc.var([float(v) for v in L2v], ['spectrum'], u2, dt_L)}
-            kw[ename] = E_var_sc
+                if layout == 'bcast':
+                    t_op = lc.var(tof[0, 0], [], tunit, dt_t) if variant == 'scalar-tof' else lc.var(
+                        tof[0], ['tof'], tunit, dt_t)
+                elif layout == 'events':
+                    t_op = lc.binned_var(tof, tunit, dt_t, prm['gaps'])
+                elif variant:
+                    t_op = lc.strided_view(tof, ['spectrum', 'tof'], tunit, dt_t, variant)
+                else:
+                    t_op = lc.var(tof, ['spectrum', 'tof'], tunit, dt_t)
+                kw = {'tof': t_op,
+                      'L1': operand('L1', [float(v) for v in L1v], ['spectrum'], u1, dt_L),
+                      'L2': operand('L2', [float(v) for v in L2v], ['spectrum'], u2, dt_L)}
+            kw[ename] = E_sc
+            dims_in = set().union(*(set(v.dims) for v in kw.values()))
+            snapshot = {k: v.copy() for k, v in kw.items()}
             res = kernel(mode)(**kw)
+            for k, v in kw.items():
+                if not sc.identical(v, snapshot[k]):
+                    raise RuntimeError(f'operand {k} was modified by the call')
     except Exception as e:  # noqa: BLE001
         ev['status'] = 'raised'
         det['exc'] = repr(e)[:300]
         events.append(ev)
         details.append(det)
         return False
-    ev['unit_out'] = lc.unit_name(res.unit)
-    vals = res.values if res.ndim else np.asarray(res.value)
-    if res.ndim == 2 and list(res.dims) == ['tof', 'spectrum']:
-        vals = np.asarray(vals).T
-    vals = np.asarray(vals, dtype='float64').reshape(npix, nx)
+    vals = None
+    try:
+        ev['unit_out'] = lc.elem_unit_name(res)
+        binned_in = layout == 'events' or (layout, variant) == ('convert', 'events')
+        if lc.is_binned(res) != binned_in or (dims_in is not None and set(res.dims) != dims_in):
+            ev['shape_ok'] = False
+        elif lc.is_binned(res):
+            rows = lc.bin_rows(res)
+            if len(rows) == npix and all(len(r) == nx for r in rows):
+                vals = np.asarray(rows, dtype='float64')
+        else:
+            v = res.values if res.ndim else np.asarray(res.value)
+            if res.ndim == 2 and list(res.dims)[1] == 'spectrum':
+                v = np.asarray(v).T
+            elif res.ndim == 1 and list(res.dims) == ['spectrum']:
+                v = np.asarray(v)[:, None]
+            v = np.asarray(v, dtype='float64')
+            if v.size == npix * nx:
+                vals = v.reshape(npix, nx)
+    except Exception as e:  # noqa: BLE001
+        det['exc'] = f'malformed result: {e!r}'[:300]
+    if vals is None:
+        ev['shape_ok'] = False
+        det.setdefault('exc', f'result dims {getattr(res, "sizes", None)} for operand dims {sorted(dims_in or [])}, '
+                              f'{npix} pixels x {nx} times')
+        events.append(ev)
+        details.append(det)
+        return False
     ev['cls'] = worst_cls(cls_of(vals))
     tau = TAU[prec]
     worst = 0.0
@@ -216,13 +394,13 @@ def flight_block(ctx, fl, mode, layout, dts, units, events, details, tid):
             if not np.isfinite(vals[p, x]):
                 ev['close'] = False
                 continue
-            bound = tau * (float(E_fix) + float(E_var[x]) * (1 + 2 * ratio[p, x]))
+            bound = tau * (float(E_fix_p[p]) + float(E_var[p][x]) * (1 + 2 * ratio[p, x]))
             err = abs(Fraction(float(vals[p, x])) - want[p, x])
             r = float(err) / bound
             if r > worst:
                 worst = r
                 det['worst'] = {'got': float(vals[p, x]), 'want': float(want[p, x]), 'bound': bound,
-                                'Ei_or_Ef_supplied': float(E_fix), 'other_energy': float(E_var[x]),
+                                'Ei_or_Ef_supplied': float(E_fix_p[p]), 'other_energy': float(E_var[p][x]),
                                 'tof': float(tof[p, x]), 'L1': float(L1v[p]), 'L2': float(L2v[p])}
     ev['close'] = bool(ev['close'] and worst <= 1.0)
     det['worst_error_over_bound'] = worst
@@ -232,9 +410,11 @@ def flight_block(ctx, fl, mode, layout, dts, units, events, details, tid):
 
 
 # ------------------------------------------------------------------------------------ scans
-def scan(ctx, mode, E_val, eunit, Lfix, ufix, Lvar, uvar, tunit, dts, t0_exact, events, details, tid,
-         coherent):
+def run_scan(ctx, prm, last, events, details, tid, again=False):
     """Scan arrival times around the exact t0 of the fixed-energy leg (one real call)."""
+    mode, E_val, eunit, Lfix, ufix, Lvar, uvar, tunit, dts, t0_exact, coherent = (
+        prm[k] for k in ('mode', 'E', 'eunit', 'Lfix', 'ufix', 'Lvar', 'uvar', 'tunit', 'dts', 't0_exact',
+                         'coherent'))
     dt_t, dt_E, dt_L = dts
     prec = prec_of(*dts)
     E_SI = mpf(Fraction(E_val) * lc.si(eunit))
@@ -254,6 +434,8 @@ def scan(ctx, mode, E_val, eunit, Lfix, ufix, Lvar, uvar, tunit, dts, t0_exact, 
         pts += [f.dtype.type(float(f) * (1 - 2.0 ** -k)), f.dtype.type(float(f) * (1 + 2.0 ** -k))]
     pts += [zero, f.dtype.type(float(f) / 2), f.dtype.type(float(f) * 3)]
     pts = sorted(set(float(p) for p in pts))
+    # a time axis need not be sorted (item "listing order"): the order is part of the scan's parameters
+    pts = [pts[i] for i in prm['order']] if len(prm['order']) == len(pts) else pts
     band = BAND_ULPS * EPS[prec] + (0.0 if coherent else UNIT_ALLOWANCE)
     sides = []
     for p in pts:
@@ -264,30 +446,76 @@ def scan(ctx, mode, E_val, eunit, Lfix, ufix, Lvar, uvar, tunit, dts, t0_exact, 
         rel = (mpf(pe) - t0) / t0
         sides.append('band' if abs(rel) <= band else ('below' if rel < 0 else 'above'))
     ename = 'incident_energy' if mode == 'direct' else 'final_energy'
-    kw = {'tof': lc.var(np.asarray(pts), ['tof'], tunit, dt_t), ename: lc.var(E_val, [], eunit, dt_E)}
-    kw['L1' if mode == 'direct' else 'L2'] = lc.var(Lfix, [], ufix, dt_L)
-    kw['L2' if mode == 'direct' else 'L1'] = lc.var(Lvar, [], uvar, dt_L)
+
+    def operand(name, value, unit, dt):
+        if prm['pooled']:
+            return last.pool.get(name, value, [], unit, dt)
+        return lc.var(value, [], unit, dt)
+
+    kw = {'tof': lc.var(np.asarray(pts), ['tof'], tunit, dt_t), ename: operand('E', E_val, eunit, dt_E)}
+    kw['L1' if mode == 'direct' else 'L2'] = operand('L1' if mode == 'direct' else 'L2', Lfix, ufix, dt_L)
+    kw['L2' if mode == 'direct' else 'L1'] = operand('L2' if mode == 'direct' else 'L1', Lvar, uvar, dt_L)
     ev = {'ev': 'scan', 'tid': tid, 'mode': mode, 'status': 'ok', 'unit_in': eunit, 'unit_out': '',
-          'sides': sides, 'cls': []}
+          'sides': sides, 'cls': [], 'order': prm['order_name'], 'again': bool(again)}
     det = {'dtypes(tof,E,L)': dts, 'units(E,Lfix,Lvar,tof)': [eunit, ufix, uvar, tunit], 'E': E_val,
            'Lfix': Lfix, 'Lvar': Lvar, 't0': mpmath.nstr(t0 / tu, 25), 'times': pts,
            'exact_boundary_family': t0_exact is not None, 'band_rel': band,
-           'const_class': const_class(dt_E, eunit, tunit, (ufix, uvar))}
+           'const_class': const_class(dt_E, eunit, tunit, (ufix, uvar)), 'operand_objects_reused': prm['pooled']}
     try:
         res = kernel(mode)(**kw)
+        ev['unit_out'] = lc.elem_unit_name(res)
+        ev['cls'] = cls_of(res.values)
+        det['values'] = [float(v) for v in np.asarray(res.values, dtype='float64').ravel()]
     except Exception as e:  # noqa: BLE001
         ev['status'] = 'raised'
+        ev['cls'] = []
         det['exc'] = repr(e)[:300]
         events.append(ev)
         details.append(det)
         return
-    ev['unit_out'] = lc.unit_name(res.unit)
-    ev['cls'] = cls_of(res.values)
-    det['values'] = [float(v) for v in np.asarray(res.values, dtype='float64')]
     events.append(ev)
     details.append(det)
     both = 'nan' in ev['cls'] and 'num' in ev['cls']
-    ctx.case(nontrivial_id=('scan', mode, dts, eunit, ufix, uvar, tunit, E_val, Lfix) if both else None)
+    ctx.case(nontrivial_id=('scan', mode, dts, eunit, ufix, uvar, tunit, E_val, Lfix, prm['order_name'])
+             if both and not again else None)
+
+
+N_SCAN_POINTS = 44      # upper bound of distinct points of one scan (33 neighbours + 8 + 3)
+
+
+def draw_order(rng):
+    """Order in which the scanned times are listed: as a permutation of the sorted points (applied only if
+    its length matches, i.e. drawn lazily by run_scan through `order_for`)."""
+    return rng.choice(['ascending', 'descending', 'shuffled', 'shuffled'])
+
+
+def order_for(rng, name, n):
+    idx = list(range(n))
+    if name == 'descending':
+        idx.reverse()
+    elif name == 'shuffled':
+        rng.shuffle(idx)
+    return idx
+
+
+def n_points(prm):
+    """Number of distinct scan points of a scan (depends on the dtype only through coincidences): computed by
+    a dry run of the point construction."""
+    dt_t = prm['dts'][0]
+    E_SI = mpf(Fraction(prm['E']) * lc.si(prm['eunit']))
+    t0 = mpf(prm['t0_exact']) if prm['t0_exact'] is not None else mpf(
+        Fraction(prm['Lfix']) * lc.si(prm['ufix'])) / speed(E_SI)
+    f = np.asarray(float(t0 / mpf(lc.si(prm['tunit'])))).astype(dt_t)[()]
+    pts = [f]
+    lo = hi = f
+    for _ in range(16):
+        lo = np.nextafter(lo, f.dtype.type(0))
+        hi = np.nextafter(hi, f.dtype.type(np.inf))
+        pts += [lo, hi]
+    for k in (30, 20, 10, 3):
+        pts += [f.dtype.type(float(f) * (1 - 2.0 ** -k)), f.dtype.type(float(f) * (1 + 2.0 ** -k))]
+    pts += [f.dtype.type(0), f.dtype.type(float(f) / 2), f.dtype.type(float(f) * 3)]
+    return len(set(float(p) for p in pts))
 
 
 def run(ctx):
@@ -299,48 +527,78 @@ def run(ctx):
     ctx.assume('NaN boundary: guard band of +-8 eps (eps of the coarsest operand dtype) around the exact t0, '
                'widened by 1e-11 when operand units are not (s, m, J) because scipp converts m_n/2 into a '
                'derived unit with ~1e-13 accuracy; +-inf is never accepted')
+    ctx.assume('the result of a call has the dims of its operands (in any order) and is event data iff the '
+               'arrival times are: needed to address "the result for pixel p and time x"')
     rng = ctx.rng
+    workers = int(os.environ.get('VERIF_TLC_WORKERS', 16))   # other builders share the machine
     # ---- 1. design
     cfg = 'MC_KinematicsInel_thorough.cfg' if ctx.thorough else 'MC_KinematicsInel.cfg'
-    res = ctx.tlc('conv/MC_KinematicsInel.tla', cfg, workers=16, timeout=1200)
+    res = ctx.tlc('conv/MC_KinematicsInel.tla', cfg, workers=workers, timeout=1200)
     require_ok(ctx, res, 'KinematicsInel model')
     ctx.tlc('conv/MC_KinematicsInel.tla', 'Neg_KinematicsInel.cfg', workers=4, expect_error=True, timeout=300)
+    ctx.tlc('conv/MC_KinematicsInel.tla', 'Neg_KinematicsInel_stale_t0.cfg', workers=4, expect_error=True,
+            timeout=300)
     ecfg = 'Emit_KinematicsInel_thorough.cfg' if ctx.thorough else 'Emit_KinematicsInel.cfg'
     em = ctx.tlc('conv/MC_KinematicsInel.tla', ecfg, workers=1, timeout=1200, count=False)
     require_ok(ctx, em, 'KinematicsInel flight emission')
     fl = Flights(em.printed)
     ctx.extra['spec_flights'] = len(fl.tab)
+    ctx.extra['spec_arrival_times_shared_by_several_pixels'] = sum(
+        1 for d in fl.same_time.values() for pixels in d.values() if len(pixels) > 1)
 
     # ---- 2. flights through the real kernels and convert()
     events, details = [], []
     tid = 0
-    dt_combos = [('float64', 'float64', 'float64'), ('float32', 'float32', 'float32'),
-                 ('float32', 'float64', 'float64'), ('float64', 'float32', 'float64'),
-                 ('float64', 'float64', 'float32'), ('float32', 'float32', 'float64')]
-    nrep = 12 if ctx.thorough else 3
+    last = Last()
+    # all-single first, all-double second (hostile order for anything remembered between calls), then the mixtures
+    dt_combos = [(a, b, c) for a in ('float32', 'float64') for b in ('float32', 'float64')
+                 for c in ('float32', 'float64')]
+    dt_combos.insert(1, dt_combos.pop())
+    nrep = 8 if ctx.thorough else 2
     returned = 0
+    by_layout: dict = {}
+    done_flights, done_scans = [], []
     for mode in ('direct', 'indirect'):
-        for layout in ('scalar', 'dense', 'pixels', 'convert'):
+        for layout in LAYOUTS:
             for dts in dt_combos:
                 for eunit in ENERGY_UNITS:
                     for _ in range(nrep):
                         units = (eunit, rng.choice(lc.LENGTH_UNITS), rng.choice(lc.LENGTH_UNITS),
                                  rng.choice(lc.TIME_UNITS))
+                        prm = draw_flight(ctx, fl, mode, layout, dts, units, last)
+                        if prm is None:
+                            continue
                         n0 = len(events)
-                        ok = flight_block(ctx, fl, mode, layout, dts, units, events, details, tid)
+                        ok = run_flight(ctx, fl, prm, last, events, details, tid)
                         returned += bool(ok)
-                        ctx.case(nontrivial_id=(mode, layout, dts, units, details[-1]['v_fix'],
-                                                tuple(details[-1]['v_var'])) if ok else None)
+                        by_layout[events[n0]['layout']] = by_layout.get(events[n0]['layout'], 0) + bool(ok)
+                        ctx.case(nontrivial_id=(mode, events[n0]['layout'], dts, prm['units'], details[-1]['v_fix'],
+                                                str(details[-1]['v_var'])) if ok else None)
+                        if ok:
+                            done_flights.append(prm)
                         if tid < 2:
                             ctx.sample({'event': events[n0], 'context': details[n0]})
                         tid += 1
+    n_flight_calls = tid
     ctx.extra['flight_calls'] = tid
     ctx.extra['flight_calls_returned'] = returned
-    ctx.extra['max_error_over_bound'] = max((d.get('worst_error_over_bound', 0.0) for d in details), default=0)
+    ctx.extra['flight_calls_returned_by_layout'] = dict(sorted(by_layout.items()))
+    ctx.extra['flight_calls_with_one_supplied_energy_per_pixel'] = sum(
+        1 for e in events if e.get('energy_per_pixel') and e['status'] == 'ok')
 
     # ---- 3. boundary scans
-    nscan = 60 if ctx.thorough else 15
+    nscan = 40 if ctx.thorough else 10
     n_scan0 = len(events)
+
+    def do_scan(prm):
+        nonlocal tid
+        prm['order_name'] = draw_order(rng)
+        prm['order'] = order_for(rng, prm['order_name'], n_points(prm))
+        prm['pooled'] = rng.random() < 0.5
+        run_scan(ctx, prm, last, events, details, tid)
+        done_scans.append(prm)
+        tid += 1
+
     for mode in ('direct', 'indirect'):
         for dts in dt_combos:
             for _ in range(nscan):
@@ -352,9 +610,9 @@ def run(ctx):
                 E_val = float(np.asarray(short(E_meV * float(lc.si('meV') / lc.si(eunit)), 20)).astype(dts[1]))
                 Lfix = float(np.asarray(short(10 ** rng.uniform(-1, 3) / float(lc.si(ufix)), 12)).astype(dts[2]))
                 Lvar = float(np.asarray(short(10 ** rng.uniform(-1, 3) / float(lc.si(uvar)), 12)).astype(dts[2]))
-                scan(ctx, mode, E_val, eunit, Lfix, ufix, Lvar, uvar, tunit, dts, None, events, details, tid,
-                     coherent=(eunit, ufix, tunit) == ('J', 'm', 's'))
-                tid += 1
+                do_scan({'mode': mode, 'E': E_val, 'eunit': eunit, 'Lfix': Lfix, 'ufix': ufix, 'Lvar': Lvar,
+                         'uvar': uvar, 'tunit': tunit, 'dts': dts, 't0_exact': None,
+                         'coherent': (eunit, ufix, tunit) == ('J', 'm', 's')})
         # exact boundary family: E = m_n 2^(2j-1) J  =>  v = 2^j m/s exactly, t0 = L / 2^j exactly
         for dts in (('float64', 'float64', 'float64'), ('float32', 'float64', 'float64'),
                     ('float32', 'float64', 'float32')):
@@ -370,34 +628,69 @@ def run(ctx):
                     t0 = Fraction(Lfix) / 2 ** j
                     if Fraction(float(np.asarray(float(t0)).astype(dts[0]))) != t0:
                         continue
-                    scan(ctx, mode, E_val, 'J', Lfix, 'm', Lvar, 'm', 's', dts, t0, events, details, tid,
-                         coherent=True)
-                    tid += 1
-    ctx.extra['scan_calls'] = len(events) - n_scan0
+                    do_scan({'mode': mode, 'E': E_val, 'eunit': 'J', 'Lfix': Lfix, 'ufix': 'm', 'Lvar': Lvar,
+                             'uvar': 'm', 'tunit': 's', 'dts': dts, 't0_exact': t0, 'coherent': True})
+    n_first = len(events)
+    ctx.extra['scan_calls'] = n_first - n_scan0
     ctx.extra['scanned_times'] = sum(len(e['sides']) for e in events[n_scan0:])
     ctx.extra['scanned_exactly_at_t0'] = sum(e['sides'].count('at') for e in events[n_scan0:])
+    ctx.extra['scan_orders'] = {o: sum(1 for e in events[n_scan0:] if e['order'] == o)
+                                for o in ('ascending', 'descending', 'shuffled')}
     ctx.sample({'event': events[n_scan0], 'context': {k: v for k, v in details[n_scan0].items() if k != 'values'}})
     ctx.sample({'event': events[-1], 'context': {k: v for k, v in details[-1].items() if k != 'values'}})
-    if returned < tid // 10 or ctx.extra['scanned_exactly_at_t0'] == 0:
-        raise MachineryError('vacuous run')
 
-    # ---- 4. TLC judges every event
+    # ---- 4. second use: a sample of the calls made so far, once more, in another order
+    rng.shuffle(done_flights)
+    rng.shuffle(done_scans)
+    for prm in done_flights[:600 if ctx.thorough else 150]:
+        run_flight(ctx, fl, prm, last, events, details, tid, again=True)
+        ctx.case()
+        tid += 1
+    for prm in done_scans[:200 if ctx.thorough else 60]:
+        run_scan(ctx, prm, last, events, details, tid, again=True)
+        tid += 1
+    ctx.extra['calls_replayed_at_the_end'] = len(events) - n_first
+    ctx.extra['calls_with_reused_operand_objects'] = last.pool.reused
+    ctx.extra['max_error_over_bound'] = max((d.get('worst_error_over_bound', 0.0) for d in details), default=0)
+
+    # ---- 5. TLC judges every event
+    nviol = 0
     for line, _tid, clause in lc.run_trace(ctx, 'conv/Trace_KinematicsInel.tla', events, 'Trace_KinematicsInel'):
         ev, det = events[line - 1], details[line - 1]
         dts = det['dtypes(tof,E,L)']
         what = f'energy_transfer_{ev["mode"]}_from_tof'
         ops = f'{prec_of(*dts)} operands'
+        nviol += 1
         if det['const_class'] != 'normal':
             # one stable signature per kernel for this input class, whatever clause / path shows it
             key = f'{what}: wrong t0 / result for float32 energy when {det["const_class"]}'
             ctx.violation(key, {'clause': clause, 'event': ev, 'context': det})
             continue
         if ev['ev'] == 'flight':
+            lay = ev['layout'].split('/')[0]
             key = f'{what} ({ev["via"]}): {clause} ({ops})'
+            if lay not in ('scalar', 'dense', 'pixels', 'convert') or '/' in ev['layout'] or ev['energy_per_pixel']:
+                lname = ev['layout'] + (', one supplied energy per pixel' if ev['energy_per_pixel'] else '')
+                key = f'{what} ({ev["via"]}, layout {lname}): {clause} ({ops})'
         else:
             fam = 'exact-boundary family' if det['exact_boundary_family'] else 'scan around t0'
+            if ev['order'] != 'ascending':
+                fam += ', times not in ascending order'
             key = f'{what}: {clause} ({fam}, {ops})'
+        if ev['again'] and not any(k.startswith(key) for k, _ in ctx.violations):
+            key += ' [only when replayed at the end of the run]'
         ctx.violation(key, {'event': ev, 'context': det})
+    # vacuity last and only on a tree without violations (a broken implementation must end as a violation)
+    if nviol == 0:
+        if returned < n_flight_calls // 2 or ctx.extra['scanned_exactly_at_t0'] == 0:
+            raise MachineryError('vacuous run')
+        for lay in LAYOUTS:
+            if not any(k.split('/')[0] == lay and v for k, v in by_layout.items()):
+                raise MachineryError(f'vacuous run: no flight call of layout {lay} returned')
+        if not ctx.extra['flight_calls_with_one_supplied_energy_per_pixel']:
+            raise MachineryError('vacuous run: no flight call with per-pixel supplied energies returned')
+    elif ctx.extra['scanned_exactly_at_t0'] == 0:
+        raise MachineryError('vacuous run: no scan hit t0 exactly (independent of the implementation)')
 
     # ---------------------------------------------------------------- growth: time_at_sample_from_tof as a
     # flight state machine (spec/conv/Growth_TimeAtSample.tla; deviations are GROWTH-FINDINGs, not
@@ -413,10 +706,12 @@ META = {
                  'boundary scans recorded and judged by a TLC trace specification with the same class rule',
     'text': 'TLC proves energy conservation for both geometries, NaN iff t <= t0 and no Inf on all rational '
             'flights. Every flight is replayed with exactly representable energies/lengths in all energy, '
-            'length and time units, float32/float64 operands, scalar/dense/per-pixel layouts and through '
-            'convert(); the result must be a number in the unit of the supplied energy within a derived '
-            'rounding bound of the spec\'s Ei - Ef. Scans over the 33 floats around the exact t0, far points and '
-            'an exactly-representable boundary family are classified nan/num/inf and judged by TLC.',
+            'length and time units, float32/float64 operands, scalar / dense / per-pixel (also transposed and '
+            'strided) / broadcast / event layouts and through convert() on dense and event data; the result must '
+            'be a number in the unit of the supplied energy within a derived rounding bound of the spec\'s '
+            'Ei - Ef. Scans over the 33 floats around the exact t0, far points and an exactly-representable '
+            'boundary family, listed in any order, are classified nan/num/inf and judged by TLC. Operand objects '
+            'are reused across calls and a sample of all calls is replayed at the end in another order.',
     'note': 'Trusted: TLC, scipp operand construction, mpmath. Closeness and the side of a scanned time are '
             'computed by the harness. Guard band +-8 eps (+1e-11 for non-(s,m,J) units, deviation from DESIGN '
             '§3.4 caused by the accuracy of scipp unit conversion factors).',
